@@ -123,3 +123,29 @@ C("c19-publish-early", "C19", UH, "            if not dryrun:\n                c
 CONTROLS.pop()
 C("c19-publish-order", "C19", UH, "            try:\n                cls._pending_backend = name\n                cls._pending_dry_run = dryrun\n                cls._set_backend(name, dryrun)\n", "            try:\n                cls._pending_backend = name\n                cls._pending_dry_run = dryrun\n                if not dryrun:\n                    cls.__backend = name\n                cls._set_backend(name, dryrun)\n", "C19.c")
 C("c19-registry-idem", "C19", "passlib/registry.py", "        if other is handler:\n            logging.debug(\"same %r handler already registered: %r\", name, handler)\n            return\n", "", "C19.e")
+
+# ---- C17
+AP = "passlib/apache.py"
+C("c17-revert-F14", "C17", AP, '    schemes.remove("plaintext")\n    schemes.append("plaintext")\n', "", "C17.b", "revert of fix 571a5c9")
+C("c17-hosts-disabled-first", "C17", "passlib/hosts.py", 'freebsd_context = LazyCryptContext(\n    ["bcrypt", "md5_crypt", "bsd_nthash", "des_crypt", "unix_disabled"]\n)', 'freebsd_context = LazyCryptContext(\n    ["bcrypt", "md5_crypt", "bsd_nthash", "unix_disabled", "des_crypt"]\n)', "C17", "placeholder: not a shadow")
+CONTROLS.pop()
+C("c17-registry-name", "C17", "passlib/registry.py", '    ldap_md5="passlib.handlers.ldap_digests",', '    ldap_md5="passlib.handlers.roundup",', "C17")
+C("c17-handler-name", "C17", "passlib/handlers/mysql.py", '    name = "mysql41"', '    name = "mysql_41"', "C17.a")
+C("c17-django-default", "C17", "passlib/ext/django/utils.py", "default = django_pbkdf2_sha256\n", "default = django_pbkdf2_sha512\n", "C17.c")
+C("c17-regex-widen", "C17", "passlib/handlers/des_crypt.py", '        (?P<salt>[./a-z0-9]{2})\n        (?P<chk>[./a-z0-9]{11})?\n        $""",\n        re.VERBOSE | re.IGNORECASE,\n    )\n\n    @classmethod\n    def from_string(cls, hash):\n        hash = to_unicode(hash, "ascii", "hash")\n        salt, chk = hash[:2], hash[2:]', '        (?P<salt>[./a-z0-9$]{2})\n        (?P<chk>[./a-z0-9$]{11})?\n        """,\n        re.VERBOSE | re.IGNORECASE,\n    )\n\n    @classmethod\n    def from_string(cls, hash):\n        hash = to_unicode(hash, "ascii", "hash")\n        salt, chk = hash[:2], hash[2:]', "C17.b", "des_crypt regex loses its end anchor and accepts '$': shadows later schemes in hosts presets")
+C("c17-roundup-order", "C17", "passlib/apps.py", '    "ldap_des_crypt",\n    "roundup_plaintext",\n]', '    "roundup_plaintext",\n    "ldap_des_crypt",\n]', "C17", "no shadow: different prefixes")
+CONTROLS.pop()
+C("c17-preset-unknown", "C17", "passlib/apps.py", 'mysql3_context = LazyCryptContext(["mysql323"])', 'mysql3_context = LazyCryptContext(["mysql_323"])', "C17")
+
+# ---- C16
+C("c16-revert-F13", "C16", AP, "        if not existing and (_RECORD, key) not in self._source:", "        if not existing:", "C16.b", "revert of fix a347b9e")
+C("c16-no-autosave", "C16", AP, "            del self._records[self._encode_user(user)]\n        except KeyError:\n            return False\n        self._autosave()\n        return True", "            del self._records[self._encode_user(user)]\n        except KeyError:\n            return False\n        return True", "C16.d")
+C("c16-raw-key", "C16", AP, "        user = self._encode_user(user)\n        existing = self._set_record(user, hash)", "        existing = self._set_record(user, hash)", "C16.c")
+C("c16-invalid-chars", "C16", AP, '_INVALID_FIELD_CHARS = b":\\n\\r\\t\\x00"', '_INVALID_FIELD_CHARS = b"\\n\\r\\t\\x00"', "C16.c")
+C("c16-render-order", "C16", AP, 'return render_bytes("%s:%s:%s\\n", user, realm, hash)', 'return render_bytes("%s:%s:%s\\n", realm, user, hash)', "C16.e")
+C("c16-realm-filter", "C16", AP, "        keys = [key for key in records if key[1] == realm]", "        keys = [key for key in records if key[0] == realm]", "C16.h")
+C("c16-dup-overwrite", "C16", AP, "                skipped += line\n                continue\n\n            # flush buffer of skipped whitespace lines", "                skipped += line\n\n            # flush buffer of skipped whitespace lines", "C16.f")
+C("c16-writer", "C16", AP, "        realm = self._encode_realm(realm)\n        return [self._decode_field(key[0]) for key in self._records if key[1] == realm]", "        realm = self._encode_realm(realm)\n        self._records.pop((b'', realm), None)\n        return [self._decode_field(key[0]) for key in self._records if key[1] == realm]", "C16.a")
+C("c16-verify-roles", "C16", AP, "return htdigest.verify(password, hash, user, realm, encoding=self.encoding)", "return htdigest.verify(password, hash, realm, user, encoding=self.encoding)", "C16.e")
+C("c16-shim", "C16", AP, "        if hash is _UNSET:\n            # called w/ two args - (user, hash), use default realm\n            realm, hash = None, realm", "        if hash is _UNSET:\n            # called w/ two args - (user, hash), use default realm\n            realm, hash = realm, None", "C16.g")
+C("c16-mtime", "C16", AP, "            self.save(self._path)\n            self._mtime = os.path.getmtime(self._path)", "            self.save(self._path)", "C16.d")
